@@ -382,7 +382,11 @@ func runCheck(id, tier, replay string) int {
 		if p.race {
 			tag = "race"
 		}
-		rs := runWorkers(bin, &ck2, tier, replay, dir, workers, deadline, tag)
+		nw := workers
+		if p.race && nw > 8 {
+			nw = 8 // ThreadSanitizer multiplies memory use; keep the race pass at half the cores
+		}
+		rs := runWorkers(bin, &ck2, tier, replay, dir, nw, deadline, tag)
 		for i, r := range rs {
 			if r.crashed {
 				if ck.CrashIsViolation && r.infl != "" {
